@@ -103,7 +103,26 @@ def forall_val(f):
     return all(f(k) for k in UNIVERSE)
 
 
-def exists_val(f):
+def exists_val(f, hint=None):
+    """A witness found is conclusive. Without one: if the clause names THE canonical witness (hint=, for clauses whose first
+    conjuncts determine the value completely) its failure is conclusive too; otherwise the clause is not checkable natively."""
+    if hint is not None:
+        try:
+            cand = hint()
+        except Exception:
+            cand = UNDEF
+        if cand is not UNDEF and f(cand):
+            return True
+    for k in UNIVERSE:
+        try:
+            if f(k):
+                return True
+        except NotCheckable:
+            raise
+        except Exception:
+            continue
+    if hint is not None:
+        return False
     raise NotCheckable('exists_val needs an unbounded witness')
 
 
@@ -177,6 +196,21 @@ def truthy(x):
 def callraises(fn, *args, **kw):
     try:
         fn(*[_arg(a) for a in args], **kw)
+        return False
+    except Exception:
+        return True
+
+
+def callv(fn, seq=None, kwmap=None, **named):
+    try:
+        return fn(*(list(seq) if seq is not None else []), **{**(dict(kwmap) if kwmap is not None else {}), **named})
+    except Exception:
+        return UNDEF
+
+
+def callvraises(fn, seq=None, kwmap=None, **named):
+    try:
+        fn(*(list(seq) if seq is not None else []), **{**(dict(kwmap) if kwmap is not None else {}), **named})
         return False
     except Exception:
         return True
@@ -455,7 +489,8 @@ def rt_eq(a, b, _d=0):
     if hasattr(type(a), '__pane_info__') and type(a) is type(b) and _d < 6:
         # pane instances (possibly half-built by an unchecked constructor): the stored attributes
         da, db = vars(a), vars(b)
-        return da.keys() == db.keys() and all(rt_eq(da[k], db[k], _d + 1) for k in da)
+        return da.keys() == db.keys() and all(rt_eq(da[k], db[k], _d + 1) for k in da) \
+            and getattr(a, '__pane_set__', None) == getattr(b, '__pane_set__', None)
     import pane.converters as _C
     if isinstance(a, _C.Converter) and type(a) is type(b) and type(a).__eq__ is object.__eq__ and _d < 6:
         da, db = vars(a), vars(b)
@@ -616,6 +651,11 @@ def old_get(key, thunk):
     return OLD[key]
 
 
+def deepcopy_of(x):
+    import copy as _copy
+    return _copy.deepcopy(x)
+
+
 def closure_of(f):
     f = getattr(f, '__func__', f)
     return f'{f.__module__}:{f.__qualname__}' if hasattr(f, '__qualname__') else UNDEF
@@ -699,6 +739,8 @@ def namespace():
     import pane.types as _pty
     ns['ValueOrList'] = _pty.ValueOrList
     ns['ValueOrListConverter'] = _pty.ValueOrListConverter
+    import dataclasses as _dcs
+    ns['FrozenInstanceError'] = _dcs.FrozenInstanceError
     ns['Condition'] = _ann.Condition
     ns['Tagged'] = _ann.Tagged
     import typing as _t
